@@ -39,6 +39,23 @@ Schemas with dtype-less columns (with and without a dataframe-level dtype)
 hold at least one real draw (example) in their history: drawing is the only
 operation that resolves such a dtype.
 
+Time-like widenings (pvm.c05_gen.widen_time): datetime / timedelta columns
+and index levels whose isin / notin checks hold LIST (or tuple) valued
+statistics (their history always reads the statistics out: to_yaml / to_json /
+statistics / to_script), and time zone aware ``pandas_engine.DateTime`` columns
+/ index levels / series with and without their own ``tz_localize_kwargs`` that
+are coerced from naive timestamps; their probes hold the wall-clock times of
+the DST transitions of the zone and are the first frames measured with a
+pristine twin.
+
+  PROC  a fixed family of canary schemas (drawn from the same generator,
+        default-option specs first) is built and measured once per process,
+        before the first case.  Nothing but validations of their own probes is
+        ever done with them; after every 12th case and at the end of the shard
+        verdict(canary, D) must be what it was and its fingerprint unchanged:
+        state kept outside every schema graph (class attributes, module
+        globals) that an operation on ANOTHER schema left behind.
+
 Operations may raise; that is recorded and not judged here.  After a
 violation the schema is rebuilt from its spec so that one defect does not
 cascade into the rest of the history.
@@ -70,7 +87,13 @@ def new_run():
         "frames) from pvm.c05_gen / pvm.c05_ops; pandas DataFrameSchema / "
         "SeriesSchema / Column (incl. dtype-less columns under a frame-level "
         "dtype), DataFrameModel-backed (cached) schemas, polars "
-        "DataFrameSchema / model; histories include validations of LIVE data "
+        "DataFrameSchema / model; datetime / timedelta columns and index levels "
+        "with list- or tuple-valued isin / notin statistics (history always reads "
+        "the statistics out), tz-aware DateTime columns / index / series with "
+        "default and own tz_localize_kwargs coerced from naive data with probes "
+        "at the DST transitions (measured first); 7 long-lived canary schemas per "
+        "process re-measured after every 12th case (PROC: state outside the schema "
+        "graph); histories include validations of LIVE data "
         "objects (same frame object meets the same schema object again: inplace, "
         "returned frames, error.data, after head/tail/sample, after in-place "
         "edits; judged against a pristine twin on a deep copy), steps with two "
@@ -81,7 +104,9 @@ def new_run():
         ">=3 different operation kinds; distinct = canonical hash of (spec, history)",
         ["fingerprint (pvm/fingerprint.py) walks __dict__ of every pandera "
          "object reachable from the schema; state outside that graph (module "
-         "globals) is only seen through the verdict vector",
+         "globals, class attributes) is only seen through the verdict vector of "
+         "the case (DST probes measured first) and through the process canaries "
+         "(PROC), i.e. only when it moves a verdict of a generated probe",
          "verdict = outcome kind + set of (reason, column, check) / content of "
          "the returned object; exception messages are not compared",
          "histories <= 12 ops, frames of 3 rows, <= 6 columns",
@@ -119,11 +144,17 @@ def verdict(schema, frame, lazy):
 
 
 def baseline_vector(spec, probes):
-    """Verdicts of pristine twins (one fresh build per validation)."""
-    vec = []
-    for _, frame in probes:
-        vec.append([verdict(G.build(spec).schema, frame, False),
-                    verdict(G.build(spec).schema, frame, True)])
+    """Verdicts of pristine twins (one fresh build per validation).  Probes
+    whose verdict depends on options that live outside the schema graph (the
+    DST-transition probes of tz-aware columns: localize options) are measured
+    first, before any other frame has run through a schema of this spec."""
+    vec = [None] * len(probes)
+    order = sorted(range(len(probes)),
+                   key=lambda j: (not probes[j][0].startswith("dst_"), j))
+    for j in order:
+        frame = probes[j][1]
+        vec[j] = [verdict(G.build(spec).schema, frame, False),
+                  verdict(G.build(spec).schema, frame, True)]
     return vec
 
 
@@ -455,6 +486,7 @@ def one_case(run, rng, case_id, allow_hypothesis=True, cold=False):
         spec["columns"][0]["name"] = "^r_.*$"
         spec["columns"][0]["unique"] = False
     G.widen_dtype_less(rng, spec)
+    G.widen_time(rng, spec)
     try:
         G.build(spec)
     except Exception as e:
@@ -483,10 +515,22 @@ def one_case(run, rng, case_id, allow_hypothesis=True, cold=False):
     k_draw = -1
     if allow_hypothesis and any(c.get("no_dtype") for c in spec["columns"]):
         k_draw = rng.randrange(n_ops)
+    # list-valued statistics of datetime-like / timedelta-like checks: the
+    # history holds at least one operation that reads the statistics out
+    k_ser = -1
+    if spec.get("time_list") or any(c["dtype"] == "dtl" and c["checks"]
+                                    for c in spec["columns"]):
+        k_ser = rng.choice([k for k in range(n_ops) if k not in (k_draw, k_overlap)]
+                           or [0])
+        ser_op = rng.choice(["to_yaml", "to_json", "yaml_roundtrip_eq", "to_yaml",
+                             "to_json", "statistics", "to_script"]
+                            if spec["kind"] == "frame" else ["statistics"])
     for k in range(n_ops):
         op = O.gen_op(rng, w.built, len(probes), allow_hypothesis,
                       allow_threads=not cold)
-        if ops and ops[-1]["op"] == "reuse_edit" and k not in (k_draw, k_overlap):
+        if k == k_ser and op["op"] not in ("to_yaml", "to_json", "yaml_roundtrip_eq"):
+            op = {"op": ser_op}
+        if ops and ops[-1]["op"] == "reuse_edit" and k not in (k_draw, k_overlap, k_ser):
             # an object edited in place meets the schema again right away
             op = {"op": "reuse_validate"}
             op.update(O.gen_reuse(rng, spec["kind"], spec))
@@ -504,10 +548,10 @@ def one_case(run, rng, case_id, allow_hypothesis=True, cold=False):
             w.checkpoint(k // 3)
     w.checkpoint()
     kinds = {o["op"] for o in ops}
+    sample = {"spec": spec, "history": ops, "probes": [t for t, _ in probes],
+              "pristine_verdicts": [b[0][0] for b in base]}
     run.case(canon_hash([spec, ops]), n_ok >= 1 and n_rej >= 1 and len(kinds) >= 3,
-             sample={"spec": spec, "history": ops,
-                     "probes": [t for t, _ in probes],
-                     "pristine_verdicts": [b[0][0] for b in base]})
+             sample=sample)
     run.count(f"schema:{backend}:{spec['kind']}")
     for feat, on in [("regex", any(c["regex"] for c in spec["columns"])),
                      ("frame_dtype", bool(spec.get("dtype"))),
@@ -520,6 +564,25 @@ def one_case(run, rng, case_id, allow_hypothesis=True, cold=False):
                      ("frame_dtype+dtype_less_column", bool(spec.get("dtype")) and any(
                          c.get("no_dtype") for c in spec["columns"])),
                      ("frame_coerce", bool(spec.get("coerce"))),
+                     ("time_list_statistic", bool(spec.get("time_list"))),
+                     ("time_list_statistic:timedelta", bool(spec.get("time_list")) and any(
+                         c["dtype"] == "td" for c in spec["columns"] + (spec.get("index") or []))),
+                     ("time_list_statistic:on_index", bool(spec.get("time_list")) and any(
+                         lv["dtype"] in ("dt", "td") for lv in (spec.get("index") or []))),
+                     ("time_list_statistic:tuple", bool(spec.get("time_list")) and any(
+                         k.get("container") == "tuple"
+                         for c in spec["columns"] + (spec.get("index") or [])
+                         for k in c["checks"])),
+                     ("tz_localize", bool(spec.get("tzl"))),
+                     ("tz_localize:tz_aware_list_statistic", any(
+                         c["dtype"] == "dtl" and c["checks"] for c in spec["columns"])),
+                     ("tz_localize:own_options", any(
+                         c.get("tz_opts") for c in spec["columns"] + (spec.get("index") or []))),
+                     ("tz_localize:default+own_options", len({
+                         bool(c.get("tz_opts")) for c in spec["columns"] + (spec.get("index") or [])
+                         if c["dtype"] == "dtl"}) == 2),
+                     ("tz_localize:on_index", any(
+                         lv["dtype"] == "dtl" for lv in (spec.get("index") or []))),
                      ("parsers", bool(spec.get("parsers")) or any(
                          c.get("parsers") for c in spec["columns"])),
                      ("custom_check", any(k["kind"] == "custom" for c in spec["columns"]
@@ -531,6 +594,140 @@ def one_case(run, rng, case_id, allow_hypothesis=True, cold=False):
             run.count(f"check_kind:{k['kind']}")
     for t, _ in probes:
         run.count(f"probe:{t.split(':')[0]}")
+    if spec.get("time_list"):
+        for o in ops:
+            if o["op"] in ("to_yaml", "to_json", "yaml_roundtrip_eq", "statistics",
+                           "to_script", "strategy", "example", "pickle", "deepcopy"):
+                run.count(f"time_list_statistic:history_holds:{o['op']}")
+        if kinds & {"to_yaml", "to_json", "yaml_roundtrip_eq"}:
+            run.count("time_list_statistic:serialised_to_yaml_or_json")
+    if spec.get("tzl"):
+        for (t, _), b in zip(probes, base):
+            if t.startswith("dst_"):
+                run.count(f"tz_localize:probe:{t}:{'accepted' if b[1][0] == 'ok' else 'rejected'}")
+    return sample
+
+
+# --------------------------------------------------------------------------
+# PROC monitor: state that lives outside every schema object graph
+# --------------------------------------------------------------------------
+CANARY_EVERY = 12
+_CANARY_PLAN = [("frame", "tzl-default"), ("series", "tzl-default"), ("frame", "tzl"),
+                ("frame", "tzl"), ("frame", "list"), ("frame", None), ("model", None)]
+
+
+def canary_specs():
+    """Fixed family of specs from the case generator (one per class of state
+    that is kept outside the schema graph plus two ordinary ones).  The specs
+    whose tz-aware columns rely on the documented default localize options come
+    first: they are measured before anything with own options has run."""
+    import random
+    out = []
+    for k, (kind, force) in enumerate(_CANARY_PLAN):
+        for attempt in range(40):
+            rng = random.Random(f"C05|canary|{k}|{attempt}")
+            spec = G.gen_spec(rng, backend="pandas", kind=kind)
+            if force:
+                G.widen_time(rng, spec, force=force)
+                if not (spec.get("tzl") or spec.get("time_list")):
+                    continue
+                if force == "tzl" and not any(
+                        c.get("tz_opts") for c in spec["columns"]):
+                    continue
+            try:
+                G.build(spec)
+            except Exception:
+                continue
+            out.append(spec)
+            break
+    return out
+
+
+class Canaries:
+    """Long-lived schema objects of the process.  Nothing but validations of
+    their own probe frames is ever done with them; in between, the cases of the
+    shard operate on OTHER schema objects.  PROC: the verdict of a canary on
+    each of its probes is the same at every point of the process history (and
+    its fingerprint stays what it was)."""
+
+    def __init__(self, run):
+        self.run = run
+        self.items = []
+        self.since = []          # (case id, spec, history) since the last agreement
+        for spec in canary_specs():
+            try:
+                self.items.append(self._measure(spec))
+            except Exception as e:
+                run.count(f"PROC:canary_not_built:{type(e).__name__}")
+        run.count("PROC:canaries_measured_at_process_start", 0)
+        for _ in self.items:
+            run.count("PROC:canaries_measured_at_process_start")
+
+    def _measure(self, spec):
+        probes = G.probes(spec, _probe_rng(spec))
+        built = G.build(spec)
+        fp0 = F.fp(built.schema)
+        order = sorted(range(len(probes)),
+                       key=lambda j: (not probes[j][0].startswith("dst_"), j))
+        base = {}
+        for j in order:
+            for lazy in (False, True):
+                base[(j, lazy)] = verdict(built.schema, probes[j][1], lazy)
+        return {"spec": spec, "probes": probes, "built": built, "fp0": fp0,
+                "base": base, "order": order}
+
+    def note_case(self, case_id, sample):
+        self.since.append({"case": case_id, "spec": sample.get("spec"),
+                           "history": sample.get("history")})
+        del self.since[:-2 * CANARY_EVERY]
+
+    def check(self, point):
+        run = self.run
+        clean = True
+        for n, it in enumerate(self.items):
+            S, spec = it["built"].schema, it["spec"]
+            hist = []
+            bad = False
+            for j in it["order"]:
+                tag, frame = it["probes"][j]
+                for lazy in (False, True):
+                    v = verdict(S, frame, lazy)
+                    hist.append({"op": "probe", "probe": j, "lazy": lazy})
+                    run.count("PROC:evaluated")
+                    if tag.startswith("dst_"):
+                        run.count("PROC:evaluated:dst_probe")
+                    d = F.diff(it["fp0"], F.fp(S))
+                    if d is not None:
+                        w = {"spec": spec, "history": hist, "op": hist[-1],
+                             "op_raised": v[0] if v[0] != "ok" else None, "diff": d,
+                             "eq_snapshot": None, "facts_after": facts(S, spec),
+                             "canary": n, "point": point}
+                        run.violation("schema-changed-by-non-transforming-op", w,
+                                      classify(w))
+                        bad = True
+                        break
+                    if v != it["base"][(j, lazy)]:
+                        w = {"spec": spec, "canary": n, "point": point, "probe": tag,
+                             "lazy": lazy, "before": it["base"][(j, lazy)], "after": v,
+                             "diff": None, "history": [],
+                             "cases_since_last_agreement": list(self.since)}
+                        run.violation(
+                            "verdict-of-untouched-schema-changed-during-process-history",
+                            w, None)
+                        bad = True
+                        break
+                    run.count("PROC:agree")
+                if bad:
+                    break
+            if bad:
+                clean = False
+                try:                      # heal: measure again from here
+                    self.items[n] = self._measure(spec)
+                except Exception:
+                    pass
+        if clean:
+            self.since = []
+        return clean
 
 
 N_COLD = {"quick": 16, "thorough": 192}
@@ -568,14 +765,36 @@ def run(run, ctx):
     n = N[ctx.tier]
     _cold_cases(run, ctx)
     G.warm_up()
+    canaries = None
+    try:
+        canaries = Canaries(run)
+    except Exception as e:           # harness trouble is never a verdict
+        run.count(f"harness_error:canaries:{type(e).__name__}")
+    done = 0
     for i in ctx.cases(n):
         rng = ctx.rng(PID, i)
         try:
-            one_case(run, rng, i)
+            sample = one_case(run, rng, i)
+            if canaries is not None and sample:
+                canaries.note_case(i, sample)
         except Exception as e:       # harness trouble is never a verdict
             run.count(f"harness_error:{type(e).__name__}")
             run.note_inconclusive(f"case {i}: harness error {type(e).__name__}: {e}"[:300])
         _reset_config()
+        done += 1
+        if canaries is not None and done % CANARY_EVERY == 0:
+            _check_canaries(run, canaries, f"after case {i}")
+    if canaries is not None and done % CANARY_EVERY != 0:
+        _check_canaries(run, canaries, "end of shard")
+
+
+def _check_canaries(run, canaries, point):
+    try:
+        canaries.check(point)
+        run.count("PROC:checkpoints")
+    except Exception as e:           # harness trouble is never a verdict
+        run.count(f"harness_error:canaries:{type(e).__name__}")
+    _reset_config()
 
 
 def _reset_config():
@@ -584,6 +803,18 @@ def _reset_config():
         reset_config_context()
     except Exception:
         pass
+
+
+# time-like widenings and the process canaries (quick: 8 shards x 36 cases)
+FLOORS_TIME = [("feature:time_list_statistic", 6),
+               ("feature:time_list_statistic:timedelta", 4),
+               ("feature:time_list_statistic:on_index", 1),
+               ("time_list_statistic:serialised_to_yaml_or_json", 4),
+               ("feature:tz_localize", 6), ("feature:tz_localize:own_options", 4),
+               ("feature:tz_localize:default+own_options", 2),
+               ("probe:dst_ambiguous", 6), ("probe:dst_nonexistent", 6),
+               ("PROC:evaluated", 500), ("PROC:agree", 500),
+               ("PROC:evaluated:dst_probe", 95), ("PROC:checkpoints", 6)]
 
 
 def finalize(run, ctx):
@@ -623,8 +854,64 @@ def finalize(run, ctx):
                     ("schema:pandas:series", 4), ("schema:pandas:column", 4),
                     ("schema:polars:frame", 10)]:
         run.floors[name] = m * k
+    for name, m in FLOORS_TIME:
+        run.floors[name] = m * k
+    # 7 canaries per shard process (8 / 16 shards)
+    run.floors["PROC:canaries_measured_at_process_start"] = 14 if ctx.tier == "quick" else 28
     run.floors["cold:case"] = 12 if ctx.tier == "quick" else 150
     run.floors["cold:snapshot_taken"] = 8 if ctx.tier == "quick" else 100
+
+
+def _replay_canary(path, w):
+    """PROC witness: measure the canary, run the recorded cases (other schema
+    objects), measure the canary again."""
+    spec = w["spec"]
+    probes = G.probes(spec, _probe_rng(spec))
+    S = G.build(spec).schema
+    order = sorted(range(len(probes)),
+                   key=lambda j: (not probes[j][0].startswith("dst_"), j))
+    before = {(j, lz): verdict(S, probes[j][1], lz) for j in order for lz in (False, True)}
+    for other in _CANARY_REPLAY_EXTRA() + list(w.get("cases_since_last_agreement") or []):
+        ospec, ohist = other.get("spec"), other.get("history") or []
+        if not ospec:
+            continue
+        try:
+            oprobes = G.probes(ospec, _probe_rng(ospec))
+            obuilt = G.build(ospec)
+            O.reset_pool(obuilt, oprobes)
+            for _, frame in oprobes:
+                for lz in (False, True):
+                    verdict(obuilt.schema, frame, lz)
+        except Exception as e:
+            print(f"  case {other.get('case')}: {type(e).__name__}")
+            continue
+        for op in ohist:
+            try:
+                if op["op"] == "reuse_validate":
+                    O.apply_reuse(op, obuilt, oprobes)
+                elif op["op"] != "overlap":
+                    if "probe" in op:
+                        op = dict(op, probe=op["probe"] % len(oprobes))
+                    with warnings.catch_warnings():
+                        warnings.simplefilter("ignore")
+                        O.apply(op, obuilt, oprobes)
+            except Exception:
+                pass
+    for (j, lz), b in before.items():
+        v = verdict(S, probes[j][1], lz)
+        if v != b:
+            print(f"VIOLATION property={PID} replay={path}\n  canary probe "
+                  f"{probes[j][0]} lazy={lz}: {b} before, {v} after operations on "
+                  f"other schemas")
+            return 1
+    print(f"[{PID}] replay: canary verdicts unchanged")
+    return 0
+
+
+def _CANARY_REPLAY_EXTRA():
+    # the other canaries are part of the process history as well
+    return [{"case": f"canary{n}", "spec": s, "history": []}
+            for n, s in enumerate(canary_specs())]
 
 
 def replay(path):
@@ -633,6 +920,8 @@ def replay(path):
         v = json.load(f)
     w = v["witness"]
     G.warm_up()
+    if "cases_since_last_agreement" in w:
+        return _replay_canary(path, w)
     spec, hist = w["spec"], w["history"]
     probes = G.probes(spec, _probe_rng(spec))
     built = G.build(spec)
